@@ -416,6 +416,14 @@ def _check_nsamples(prog: Program, res: Result, f: FuncInfo) -> None:
         else:
             suffix, var, producer = info
             how = LENGTH_CHANGING[suffix]
+            for _ in range(3):
+                # a temporary (or the parameter of a dissolved helper) standing for the length expression
+                if isinstance(v, ast.Name):
+                    ds_ = [dd for dd in flow.reaching(v.id, at) if dd.kind == "assign" and dd.value is not None]
+                    if len(ds_) == 1 and len(flow.reaching(v.id, at)) == 1:
+                        v, at = ds_[0].value, ds_[0].node
+                        continue
+                break
             ok = norm(v) in (f"len({var})", f"{var}.size", f"{var}.shape[1]", f"{var}.shape[-1]")
             if not ok and how == "formula" and suffix == "downsample_2d":
                 # stats.downsample_2d(data, (f_axis0, f_axis1), ...) -> shape[1] // f_axis1
